@@ -303,7 +303,7 @@ def prepare(case: dict, base_dir: Optional[str] = FAST_TMP) -> Env:
             env.dests = [Dest("state_a1.json", "body", old_body, new_body, perm if old_body is not None else None),
                          Dest("state_a1.json.meta", "sidecar", OLD_SIDECAR if old_body is not None else None, new_meta,
                               0o644 if old_body is not None else None)]
-            env.suffixes = (".json", ".json.zst", ".meta")
+            env.suffixes = (".json", ".json.zst")
         elif t in ("delta", "full"):
             from clematis.engine import snapshot as S
             base_p = {"version_etag": "e1", "store": {"k0": {"id": 0, "s": "base", "w": 1.0}}, "n": 1}
@@ -332,7 +332,7 @@ def prepare(case: dict, base_dir: Optional[str] = FAST_TMP) -> Env:
             env.dests = [Dest(name, "body", old_body, new_body, perm if old_body is not None else None),
                          Dest(name + ".meta", "sidecar", OLD_SIDECAR if old_body is not None else None, new_meta,
                               0o644 if old_body is not None else None)]
-            env.suffixes = (".json", ".json.zst", ".meta")
+            env.suffixes = (".json", ".json.zst")
         elif t == "jsonl":
             from clematis.io import log as L
             recs = _records(new_spec)
@@ -921,7 +921,7 @@ def probe_short_write() -> bool:
         except Violation as v:
             if v.sig == "short-write":
                 return True
-            raise
+            # anything else is not this finding: the search itself reports it
     return False
 
 
@@ -936,9 +936,9 @@ def probe_tmp_close() -> bool:
         try:
             inject(env, base, idx[0], "raise:EIO", None)
         except Violation as v:
-            if v.sig == "tmp-close-leak":
-                return True
-            raise
+            return v.sig == "tmp-close-leak"  # anything else is not this finding: the search itself reports it
+        return False
+    except Violation:
         return False
     finally:
         env.close()
